@@ -35,7 +35,7 @@ def exTxt (ed : Ed) (src : Bytes) (excmd : Bytes) : (Option Bytes × Bytes) × E
 /-- `reg_get(c, &lnmode)` with the computed registers -/
 def regGet (ed : Ed) (c : Nat) : Option Bytes :=
   let c := if c == 34 then 0 else c
-  if c == 59 then some (((ed.line ed.xrow).getD []).takeWhile (· != 10) |>.take 1023)
+  if c == 59 then some (((ed.line ed.xrow).getD []).takeWhile (· != 10))
   else if c == 35 then some (intStr (ed.xrow + 1))
   else if c == 94 then some (intStr (ed.xoff + 1))
   else (ed.regs.getRaw c).1
@@ -77,10 +77,11 @@ def substLine (re : RStr) (rep : Bytes) (g : Bool) (line : Bytes) : Option (Opti
         | some x =>
           let acc := (r.getD []) ++ ln.take so ++ x
           let ln1 := ln.drop eo.toNat
-          -- zero-length match at the start of the rest: copy one character (`uc_len` bytes)
+          -- zero-length match (`offs[1] <= offs[0]`): copy one character (`uc_len` bytes)
           let l := Uc.ucLen (ln1.headD 0)
-          if eo ≤ 0 && l > ln1.length then none else      -- a truncated character: memcpy past the terminator
-          let (acc, ln2) := if eo ≤ 0 then (acc ++ ln1.take l, ln1.drop l) else (acc, ln1)
+          let empty := eo ≤ offs.getD 0 0
+          if empty && l > ln1.length then none else      -- a truncated character: memcpy past the terminator
+          let (acc, ln2) := if empty then (acc ++ ln1.take l, ln1.drop l) else (acc, ln1)
           if ln2.isEmpty || ln2.headD 0 == 10 || !g then some (some acc, ln2)
           else go f ln2 (some acc) false
   match go (line.length + 2) line none true with
